@@ -58,10 +58,24 @@ fn run_case(syms: &[Sym], wset: usize, vlen: usize, rep: &Report, st: &Stats) {
             .collect(),
     );
     let windows = Windows::new(wins.iter().map(|w| Window::new(w.clone())).collect());
+    // every fourth case gets its window set the way an application that caches a parsed voice gets it: through the
+    // public Serialize / Deserialize implementations (derived data that is not serialized must be rebuilt)
+    let via_serde = (syms.len() + wset + vlen + syms[0].dur + syms[syms.len() - 1].dur) % 4 == 0;
+    let windows = if via_serde {
+        match serde_json::to_string(&windows).ok().and_then(|t| serde_json::from_str::<Windows>(&t).ok()) {
+            Some(w) => w,
+            None => {
+                rep.violation("windows-serde", "a window set does not survive its own Serialize/Deserialize round trip", json!({"window_set": wset}));
+                return;
+            }
+        }
+    } else {
+        windows
+    };
     let got = catch(|| MlpgAdjust::new(1.0, 0.5, ModelStream { vector_length: vlen, stream: sp, gv: None, windows: &windows }).create(&durations));
     rep.eval(1);
     let replay = || {
-        json!({"window_set": wset, "windows": wins, "vector_length": vlen, "threshold": 0.5,
+        json!({"window_set": wset, "windows": wins, "windows_through_serde_round_trip": via_serde, "vector_length": vlen, "threshold": 0.5,
             "states": states.iter().zip(&durations).map(|((p, v), d)| json!({"params_mean_var": p, "msd": if *v {0.9} else {0.1}, "duration": d})).collect::<Vec<_>>()})
     };
     let got = match got {
@@ -163,7 +177,7 @@ fn alphabet(durs: &[usize]) -> Vec<Sym> {
 
 pub fn run(tier: Tier) -> i32 {
     let rep = Report::new("C05", tier, "model_checking");
-    rep.set_rule("SCOPE: full product over 1..N states of per-state symbols (mean in 3 values) x (variance in {0.05,1,3}) x (duration in {1,2,3}) x {voiced, unvoiced}, for each of 8 window sets {static; +delta; +delta+delta-delta; width-5; width-3 delta with width-5 delta-delta; width-5 delta with width-3 delta-delta; even lengths 2 and 4; backward difference only} and vector lengths {1,2}, on the real MlpgAdjust::create; oracle = dense Gaussian elimination of the definition, rel. tolerance 1e-9; distinct = distinct (state sequence, window set, vector length); non-trivial = every case (each is compared frame by frame)");
+    rep.set_rule("SCOPE: full product over 1..N states of per-state symbols (mean in 3 values) x (variance in {0.05,1,3}) x (duration in {1,2,3}) x {voiced, unvoiced}, for each of 8 window sets {static; +delta; +delta+delta-delta; width-5; width-3 delta with width-5 delta-delta; width-5 delta with width-3 delta-delta; even lengths 2 and 4; backward difference only} and vector lengths {1,2}, on the real MlpgAdjust::create (every fourth case with a window set that went through its Serialize/Deserialize round trip); oracle = dense Gaussian elimination of the definition, rel. tolerance 1e-9; distinct = distinct (state sequence, window set, vector length); non-trivial = every case (each is compared frame by frame)");
     rep.assume("variances within [0.05,3]; state counts/durations beyond the stated bound are covered only by the periodic families of the thorough tier");
     let st = Stats { island1: Default::default(), island2: Default::default(), all_unvoiced: Default::default(), ends_unvoiced: Default::default(), short_island_wide: Default::default(), worst: std::sync::Mutex::new(0.0) };
     let full = alphabet(&[1, 2, 3]);
@@ -330,6 +344,7 @@ pub fn replay(v: &serde_json::Value) -> i32 {
         durations.push(s["duration"].as_u64().unwrap_or(1) as usize);
     }
     let windows = Windows::new(wins.iter().map(|w| Window::new(w.clone())).collect());
+    let windows = if v["windows_through_serde_round_trip"].as_bool() == Some(true) { serde_json::from_str::<Windows>(&serde_json::to_string(&windows).unwrap()).unwrap() } else { windows };
     let got = catch(|| MlpgAdjust::new(1.0, thr, ModelStream { vector_length: vlen, stream: StreamParameter::new(raw), gv: None, windows: &windows }).create(&durations));
     let want = mlpg_reference(&states, &durations, &wins, vlen);
     println!("dense reference: {:?}", want);
